@@ -560,6 +560,28 @@ theorem T_C20_elbow_chain (tol : Rat) (isDisk : Bool) :
 
 /-! ### the whole catalogue in one statement -/
 
+/-! ### round 6b: the sector angle of an `Angle` edge, the ends of an edge -/
+
+/-- `arc_from_theta` (the `Angle` edge) is rejected iff the sector angle is zero or leaves (−2π, 2π) on *either* side
+    (`twoPi` is the float the code compares with) -/
+theorem T_C20_arc_theta (tol a twoPi : Rat) :
+    (run tol (.arcTheta a twoPi)).isReject = true ↔ ¬ (a ≠ 0 ∧ -twoPi < a ∧ a < twoPi) := by
+  simp only [run, checks_isReject, List.any_cons, List.any_nil, Bool.or_false, Bool.not_eq_true', ← arcTheta_cond]
+  exact (Bool.not_eq_true _).symm ▸ Iff.rfl
+
+/-- opposite sector angles get the same verdict -/
+theorem T_C20_arc_theta_symmetric (tol a twoPi : Rat) :
+    run tol (.arcTheta (-a) twoPi) = run tol (.arcTheta a twoPi) := by
+  have habs : absR (-a) = absR a := by
+    unfold absR
+    by_cases h1 : a < 0 <;> by_cases h2 : -a < 0 <;> simp [h1, h2] <;> linarith
+  simp only [run, habs]
+
+/-- an edge is rejected iff one of its ends — either one — is not a `Vertex` -/
+theorem T_C20_edge_vertices (tol : Rat) (v1 v2 : Bool) :
+    (run tol (.edgeVertices v1 v2)).isReject = true ↔ ¬ (v1 = true ∧ v2 = true) := by
+  cases v1 <;> cases v2 <;> simp [run, checks, Out.isReject]
+
 /-- **Every guard of the catalogue rejects exactly the calls that violate the documented precondition**, for every
     tolerance and all arguments (`wf`: a stack has at least one shape and one row; a `Project` that receives a label
     already has one). -/
@@ -621,6 +643,8 @@ theorem T_C20_enforced (tol : Rat) (c : Call) (hwf : wf c = true) :
       | a :: b :: c :: rest => simp [pre]
   | polarArgs direction axis => rw [T_C20_polar_args]; exact not_iff_bnot (by simp [pre])
   | rotationLink leader origin axis => rw [T_C20_rotation_link]; exact not_iff_bnot (by simp [pre])
+  | arcTheta a t => rw [T_C20_arc_theta]; exact not_iff_bnot (by simp [pre, and_assoc])
+  | edgeVertices v1 v2 => rw [T_C20_edge_vertices]; exact not_iff_bnot (by simp [pre])
   | elbowChain isDisk => rw [T_C20_elbow_chain]; exact not_iff_bnot (by simp [pre])
 
 example : wf (.stackSlice 1 2 2 3 4) = true ∧ wf (.projectAddLabel [0] [1, 2]) = true := by decide
@@ -1462,5 +1486,16 @@ theorem T_C20_guards_mutation_before_guard_exceptions :
         = (.reject "FaceCreationError", ["self.edges"]) ∧
     (traceStmts (envOf 0 (fun _ => 0) (.faceRemoveEdges [-1, 0])) (genGuards "faceRemoveEdges") [])
         = (.reject "FaceCreationError", []) := by decide +kernel
+
+theorem T_C20_guards_translated_arcTheta (tol : Rat) (rt : Rat → Rat) (a twoPi : Rat) :
+    runStmts (envOf tol rt (.arcTheta a twoPi)) (genGuards "arcTheta") = run tol (.arcTheta a twoPi) := by
+  rw [show genGuards "arcTheta" = G_arcTheta by decide +kernel]
+  simp [G_arcTheta, evalC, evalE, evalOp, envOf, nm2, run, checks]
+
+theorem T_C20_guards_translated_edgeVertices (tol : Rat) (rt : Rat → Rat) (v1 v2 : Bool) :
+    runStmts (envOf tol rt (.edgeVertices v1 v2)) (genGuards "edgeVertices") = run tol (.edgeVertices v1 v2) := by
+  rw [show genGuards "edgeVertices" = G_edgeVertices by decide +kernel]
+  cases v1 <;> cases v2 <;> simp [G_edgeVertices, evalC, envOf, run, checks]
+
 
 end CBV.C20
